@@ -18,3 +18,15 @@ MUTANTS = [
 TWINS = [
     T("caption-or-empty", X + "open_office/odt_extractor.py", "        caption = title_elem.text if title_elem is not None and title_elem.text else \"\"\n        if not caption and name:", "        caption = (title_elem.text if title_elem is not None else None) or \"\"\n        if not caption and name:"),
 ]
+
+# --- seeded changes kept under /verif/seeded (sub-agents saw only the property text); each must be reported by the named rule
+import os as _os
+from sa.selftest.harness import P as _P
+_SEEDS = _os.path.join(_os.path.dirname(_os.path.dirname(_os.path.dirname(_os.path.abspath(__file__)))), "seeded")
+SEEDED = [
+    ("C04-1", "C04-DIM"),
+    ("C04-2", "C04-BYTES"),
+    ("C04-3", "C04-STR"),
+    ("C04-4", "C04-STR"),
+]
+MUTANTS = list(MUTANTS) + [_P("seed-" + sid, _os.path.join(_SEEDS, sid, "patch.diff"), rule) for sid, rule in SEEDED if _os.path.exists(_os.path.join(_SEEDS, sid, "patch.diff"))]
